@@ -300,7 +300,7 @@ def run_shard(ctx):
     def test(case):
         check_case(ctx, case)
 
-    runner.drive(ctx, test, ctx.n(4000, 40000))
+    runner.drive(ctx, test, ctx.n(16000, 80000))
 
 
 def replay(ctx, case):
